@@ -149,6 +149,27 @@ def n1(prog, ctx):
                 and node.func.attr in ("add", "update", "discard", "remove", "clear", "difference_update"):
             ctx.fail("N1", node, "GraphBasedModelConstructor", src(node), "known_introns is mutated after construction")
     ctx.floor("N1", "label/type decision blocks", n, 3)
+    # N3: the known-chain suppression looks the *intron chain* up in the table keyed by intron chains
+    f = prog.func(GMC, "GraphBasedModelConstructor.construct_fl_isoforms")
+    tests = [c for c in walk_no_nested(f) if isinstance(c, ast.Compare) and isinstance(c.ops[0], (ast.In, ast.NotIn))
+             and src(c.comparators[0]) == "self.known_isoforms_in_graph"]
+    paths = ctx.extra.get("n1_paths") or []
+    g = prog.func(GMC, "GraphBasedModelConstructor.get_known_spliced_isoforms")
+    keyed = [s_ for s_ in walk_no_nested(g) if isinstance(s_, ast.Assign) and isinstance(s_.targets[0], ast.Subscript)
+             and src(s_.targets[0].slice) == "tuple(intron_path)"]
+    thr = [s_ for s_ in walk_no_nested(g) if isinstance(s_, ast.Assign) and src(s_.targets[0]) == "intron_path" and "thread_introns" in src(s_.value)]
+    if not keyed or not thr:
+        ctx.fail("N3", g, g._qualname, "known_isoforms key", "known_isoforms_in_graph is no longer keyed by the threaded intron chain")
+    if not tests:
+        ctx.fail("N3", f, f._qualname, "known-chain test", "no test of the path against known_isoforms_in_graph remains (known intron "
+                 "chains would be reported as novel transcripts)")
+    for c in tests:
+        if src(c.left) not in paths:
+            ctx.fail("N3", c, f._qualname, src(c), "known-chain suppression looks up %s, but the table is keyed by pure intron chains "
+                     "(the tested path %s, without terminal vertices): the lookup can never succeed and a novel model duplicating a "
+                     "reference intron chain is reported" % (src(c.left), paths))
+        else:
+            ctx.ok("N3", "%s:%d" % (GMC, c.lineno), "known-chain suppression keyed by the intron chain %s" % src(c.left))
 
 
 def n2(prog, ctx):
@@ -205,6 +226,7 @@ def run(prog, ctx):
                    "nic<->novel_in_catalog / nnic<->novel_not_in_catalog; the nic branch is exactly the positive branch of a subset "
                    "test (all/any/set<=/issubset/issuperset idioms) of the model's own intron path against known_introns, whose only "
                    "definition is set(gene_info.intron_profiles.features); mono-exon novel models are nnic")
+    ctx.rule("N3", "the path tested against known_isoforms_in_graph is the same intron chain (no terminal vertices) the table is keyed by")
     ctx.rule("N2", "path enumeration of the filter loops: on every path a model is either appended to the output storage or passed "
                    "to delete_from_storage (which deletes its read list, the only source of transcript_model_reads)")
     n1(prog, ctx)
